@@ -36,6 +36,7 @@ type HarnessSpec struct {
 	MapOrderAny bool  `json:"map_order_any"`
 	FifoChans bool    `json:"fifo_chans"`
 	Replace  map[string]string `json:"replace"` // additional replacements for this harness only
+	Solver   string   `json:"solver"`  // primary back end for this harness (default: the spec's)
 	Note     string   `json:"note"`
 }
 
@@ -853,7 +854,11 @@ func runCheck(specPath, tier, only string, workers int, noNative, trace bool) in
 				hcfg.noReplInside[f] = true
 			}
 		}
-		o, err := explore(l, &hcfg, fn, h.Name, workers, solverKind, h.Arith, trace)
+		hsolver := solverKind
+		if h.Solver != "" {
+			hsolver = h.Solver
+		}
+		o, err := explore(l, &hcfg, fn, h.Name, workers, hsolver, h.Arith, trace)
 		if err != nil {
 			fatal2("explore %s: %v", h.Name, err)
 		}
@@ -950,15 +955,23 @@ func runCheck(specPath, tier, only string, workers int, noNative, trace bool) in
 			}
 		}
 		// --- violations: group by label|finding, confirm first witness of each
-		seen := map[string]bool{}
+		// (up to 6 candidates per key are tried; an unconfirmed candidate is kept next to the
+		// replay for inspection and makes the check broken only if no candidate confirms)
+		tried := map[string]int{}
+		done := map[string]bool{}
+		var pendingBroken = map[string]string{}
 		for _, v := range o.res.Violations {
 			key := v.Label + "|" + v.Finding
-			if seen[key] {
+			if done[key] || tried[key] >= 6 {
 				continue
 			}
-			seen[key] = true
+			tried[key]++
 			rf := &ReplayFile{Property: spec.Property, Spec: specPath, Harness: h.Name, Pkg: h.Pkg, Tier: tier, Label: v.Label, Finding: v.Finding, Kind: "violation", Msg: v.Msg, Inputs: v.Inputs}
-			rp := writeReplay(rf, fmt.Sprintf("%s-%s-%s", spec.Property, h.Name, sanitize(key)))
+			rname := fmt.Sprintf("%s-%s-%s", spec.Property, h.Name, sanitize(key))
+			if tried[key] > 1 {
+				rname += fmt.Sprintf("-cand%d", tried[key])
+			}
+			rp := writeReplay(rf, rname)
 			confirmed := false
 			how := ""
 			want := v.Label
@@ -992,10 +1005,14 @@ func runCheck(specPath, tier, only string, workers int, noNative, trace bool) in
 				how = "engine concrete replay (environment exists only as model): status=" + co.Status + " " + co.Err
 			}
 			if !confirmed {
-				fmt.Printf("  UNCONFIRMED counterexample %s label=%s: %s\n", h.Name, key, how)
-				broken = append(broken, fmt.Sprintf("%s: unconfirmed counterexample for %s (%s)", h.Name, key, how))
+				fmt.Printf("  UNCONFIRMED counterexample %s label=%s replay=%s: %s\n", h.Name, key, rp, how)
+				if _, ok := pendingBroken[key]; !ok {
+					pendingBroken[key] = fmt.Sprintf("%s: unconfirmed counterexample for %s (%s)", h.Name, key, how)
+				}
 				continue
 			}
+			done[key] = true
+			delete(pendingBroken, key)
 			tracesValidated++
 			f, listed := findings[v.Finding]
 			if v.Finding != "" && listed && f.Status == "known" && f.Property == spec.Property {
@@ -1006,6 +1023,9 @@ func runCheck(specPath, tier, only string, workers int, noNative, trace bool) in
 				fmt.Printf("  violation detail: harness=%s label=%s msg=%s pos=%s; %s\n", h.Name, v.Label, v.Msg, v.Pos, how)
 			}
 			samples = append(samples, map[string]interface{}{"kind": "counterexample", "harness": h.Name, "label": v.Label, "finding": v.Finding, "inputs": compactInputs(v.Inputs)})
+		}
+		for _, msg := range pendingBroken {
+			broken = append(broken, msg)
 		}
 		// --- reachability witnesses (the "twin"): native run must reach the label
 		labels := make([]string, 0, len(o.witness))
